@@ -1173,6 +1173,24 @@ fn p6_specs(depth: usize) -> Vec<Spec> {
     out
 }
 
+/// Keep the first (shortest) history per reachable state. The state key is the full observation
+/// plus the internal bookkeeping a snapshot serialises (entity ids, tombstones, slab occupancy), so
+/// histories that differ only there are still all round-tripped.
+fn dedup_states(specs: Vec<Spec>) -> Vec<Spec> {
+    let keys: Vec<String> = specs
+        .par_iter()
+        .map(|spec| {
+            let s = build(spec);
+            let r = s.router();
+            let mut ids: Vec<(String, u64)> = r.index.scan_prefix("").into_iter().map(|(k, id)| (k, id.as_u64())).collect();
+            ids.sort();
+            format!("{} dim{} ids{ids:?} total{} emb{} cap{}", obs_digest(&observe_store(&s)), spec.dim, r.index.total_entries(), r.embeddings.len(), r.embeddings.capacity())
+        })
+        .collect();
+    let mut seen = BTreeSet::new();
+    specs.into_iter().zip(keys).filter(|(_, k)| seen.insert(k.clone())).map(|(s, _)| s).collect()
+}
+
 /// structured large stores: `n` entries, every generic kind and key class round-robin, plus
 /// embeddings of the slab dimension every 50th entry
 fn p5_spec(dim: usize, n: usize) -> Spec {
@@ -1451,6 +1469,9 @@ fn run_engine_case(c: &EngCase, only: Option<Fmt>, level: Level, selftest: bool,
                         et.t.violation(sig, format!("{fmt:?} {items:?}: {engine} {name}: {} -> {}", short(ev), short(gv.map_or("<absent>", |s| s.as_str()))), replay.clone());
                     } else {
                         et.engine_diffs_explained_by_store_diff += 1;
+                        if std::env::var("VERIF_DEBUG").is_ok() {
+                            eprintln!("[explained] {fmt:?} {engine} {name}: {} -> {}", short(ev), short(gv.map_or("<absent>", |s| s.as_str())));
+                        }
                     }
                 }
             }
@@ -1760,7 +1781,7 @@ fn main() {
     env::clock_freeze(1_700_000_000);
     let mut rep = Report::new("C07", "model_checking");
     let thorough = rep.thorough();
-    rep.rule("round trip: P1 every value kind x every key class as single-entry stores, every embedding shape x slab dimension {4,255,256,257,384}; P2 all 64 subsets of a 6-entry pool, built directly and built as put-all-then-delete, at slab dimension 4 and 384; P3 all non-empty subsets of the key-less slabs {relations, graph, blobs} with and without keys; P4 all 64 subsets of 6 items created through RelationalEngine/GraphEngine/VectorEngine/BlobStore/EntityStore; P5 two fixed large stores; P6 every put/overwrite/delete sequence up to length 2 (quick) / 4 (thorough) over a 10-operation collision-forcing alphabet at slab dimension 4 and 384; each x formats {save_snapshot/load_snapshot, save_v3_uncompressed, SlabRouter::save_to_file, SlabRouter::to_bytes/from_bytes, snapshot_bytes/restore_from_bytes into a fresh and into a non-empty store, save_snapshot_compressed with default / delta+rle / balanced / high-accuracy configuration}; reference = observation (scan+get of every key, every slab read, engine reads) of the original store before the save; distinct = canonical observation of the original store");
+    rep.rule("round trip: P1 every value kind x every key class as single-entry stores, every embedding shape x slab dimension {4,255,256,257,384}; P2 all 64 subsets of a 6-entry pool, built directly and built as put-all-then-delete, at slab dimension 4 and 384; P3 all non-empty subsets of the key-less slabs {relations, graph, blobs} with and without keys; P4 all 64 subsets of 6 items created through RelationalEngine/GraphEngine/VectorEngine/BlobStore/EntityStore; P5 two fixed large stores; P6 every put/overwrite/delete sequence up to length 2 (quick) / 4 (thorough) over a 10-operation collision-forcing alphabet at slab dimension 4 and 384, one (the shortest) history per distinct state where state = observation + entity ids + tombstone count + slab occupancy; each x formats {save_snapshot/load_snapshot, save_v3_uncompressed, SlabRouter::save_to_file, SlabRouter::to_bytes/from_bytes, snapshot_bytes/restore_from_bytes into a fresh and into a non-empty store, save_snapshot_compressed with default / delta+rle / balanced / high-accuracy configuration}; reference = observation (scan+get of every key, every slab read, engine reads) of the original store before the save; distinct = canonical observation of the original store");
     rep.rule("crash: (previous content, previous save fn) x (new content, new save fn) x file name; every process-crash image of the logged save (every I/O op boundary and every byte cut of every write); load of the path must equal the previous or the new snapshot; non-trivial = image with a torn write");
     rep.assume("tolerance for slab-served `_embedding` vectors of length >= 256 and for tensor-train configurations of the quantising format: relative L2 error <= 1e-2 (the documented '<1% error'), judged only for finite vectors of tensor-train rank <= 3 (ramp, geometric, sinusoid, constant) and for the sparse path; other shapes are measured and listed, not judged");
     rep.assume("quantising format: scalars, pointers, key and field sets exact; vector payloads compared numerically after densification (Sparse may come back as Vector; -0.0 = 0.0, NaN = NaN), exactly when no tensor mode is configured; tensor-train configurations are only used when every vector handed to the coder has the configured length");
@@ -1827,8 +1848,10 @@ fn main() {
     let t3 = run_specs(p3_specs(), Level::Full, selftest);
     rep.part("P3_keyless_slabs", json!({"wall_s": secs(), "stores": t3.stores, "distinct_stores": t3.distinct_stores.len(), "round_trips": t3.round_trips, "saves_that_changed_the_original_observation": t3.saves_that_changed_the_original, "violating_cases": t3.violation_total}));
     let depth6 = if thorough { 4 } else { 2 };
-    let t6 = run_specs(p6_specs(depth6), full, selftest);
-    rep.part("P6_op_sequences", json!({"wall_s": secs(), "max_length": depth6, "alphabet": 10, "stores": t6.stores, "distinct_stores": t6.distinct_stores.len(), "round_trips": t6.round_trips, "violating_cases": t6.violation_total}));
+    let all6 = p6_specs(depth6);
+    let histories6 = all6.len();
+    let t6 = run_specs(dedup_states(all6), full, selftest);
+    rep.part("P6_op_sequences", json!({"wall_s": secs(), "max_length": depth6, "alphabet": 10, "histories_enumerated": histories6, "distinct_states_round_tripped": t6.stores, "distinct_stores": t6.distinct_stores.len(), "round_trips": t6.round_trips, "violating_cases": t6.violation_total}));
     let e4 = run_engine_part(Level::Full, selftest);
     rep.part("P4_engines", json!({"wall_s": secs(), "stores": e4.t.stores, "distinct_stores": e4.t.distinct_stores.len(), "round_trips": e4.t.round_trips, "engine_reads_compared": e4.engine_reads_compared, "engine_read_differences_explained_by_a_reported_store_difference": e4.engine_diffs_explained_by_store_diff, "violating_cases": e4.t.violation_total}));
     let n5 = if thorough { 30_000 } else { 10_000 };
